@@ -6,6 +6,7 @@ import (
 	"fmt"
 	"os"
 	"path/filepath"
+	"runtime/debug"
 	"runtime/pprof"
 	"sort"
 	"strconv"
@@ -255,6 +256,12 @@ func runHarness(w *World, solver *Solver, pkgName, harness string, params map[st
 	base := solver.Stats
 	defer func() {
 		if r := recover(); r != nil {
+			if os.Getenv("GOSYM_STACK") != "" {
+				fmt.Fprintf(os.Stderr, "engine panic: %v\n%s\n", r, debug.Stack())
+				if curIns != nil {
+					fmt.Fprintf(os.Stderr, "at %s: %v\n", curIns.Parent(), curIns)
+				}
+			}
 			res.EngineErr = fmt.Sprint(r)
 			fillResult(res, in, ex, solver, base, t0)
 		}
